@@ -714,3 +714,120 @@ Proof.
   cbn zeta in F. rewrite Forall_forall in F. destruct (F it Hin Hc) as [te H].
   exists te. right. exact H.
 Qed.
+
+(** * 5. Zero waits and an ended context (round "seeds 3") *)
+
+Lemma late_count_notes c k w tc prev l : late_count tc prev (notes c k w ++ l) = late_count tc prev l.
+Proof. unfold notes. destruct (has_log c), (has_hook c); reflexivity. Qed.
+
+(** every observable late retry is a select race lost to the timer *)
+Lemma loop_late c h sl td treset tc : (exists t, td = Some t /\ t <= tc) ->
+  forall rem k cur now pe last, pe <= now ->
+  loop_ok c h sl td treset rem k cur now = true ->
+  (late_count tc pe (r_trace (loop c h sl rem k cur now last))
+   <= lost_races td (r_waits (loop c h sl rem k cur now last)))%nat.
+Proof.
+  intros [t [Etd Ht]]. subst td. induction rem as [|rem IH]; intros k cur now pe last Hpe Hok; [cbn; lia|].
+  cbn [loop loop_ok] in *.
+  destruct (next_backoff c cur (s_elapsed (sl k)) (s_rnd (sl k))) as [wait cur'] eqn:NB.
+  apply andb_true_iff in Hok as [Hs Hok].
+  apply sel_ok_spec in Hs as [G [W [D _]]].
+  destruct (s_ctx (sl k)) eqn:Ec; [cbn; lia|].
+  destruct (is_ok (h k)) eqn:Eo.
+  - cbn [r_trace r_waits late_count]. unfold lost_races. cbn [filter].
+    unfold lost_race at 1. cbn [w_ctx w_tnb negb andb]. unfold ctx_ready_at.
+    destruct (Z.leb_spec tc pe); [|cbn; lia].
+    destruct (Z.leb_spec t (now + s_gap (sl k))); [cbn; lia|lia].
+  - cbn [r_trace r_waits late_count]. rewrite late_count_notes.
+    specialize (IH (S k) cur' (now + s_gap (sl k) + s_wake (sl k) + s_dur (sl k))
+                   (now + s_gap (sl k) + s_wake (sl k) + s_dur (sl k)) (h k) (Z.le_refl _) Hok).
+    unfold lost_races in *. cbn [filter].
+    unfold lost_race at 1. cbn [w_ctx w_tnb negb andb]. unfold ctx_ready_at.
+    destruct (Z.leb_spec tc pe).
+    + destruct (Z.leb_spec t (now + s_gap (sl k))); [cbn [length]; lia|lia].
+    + destruct (t <=? now + s_gap (sl k)); cbn [length]; lia.
+Qed.
+
+Lemma retry_late_ok c h e K : env_ok c h e = true ->
+  (lost_races (t_done c e) (r_waits (retry c h e)) <= K)%nat ->
+  late_ok K (obs_of e (retry c h e)) = true.
+Proof.
+  intros Henv HK. apply env_ok_spec in Henv as [D0 [Gp [_ Hl]]].
+  unfold late_ok, late_retries, obs_of. cbn [o_cpost o_trace].
+  destruct (e_cancel e) as [tc|] eqn:Ec; [|reflexivity].
+  apply Nat.leb_le. unfold retry in *. destruct (is_ok (h O)) eqn:E0; [cbn; lia|].
+  cbn [r_trace r_waits] in *.
+  eapply Nat.le_trans; [|exact HK].
+  apply (loop_late c h (e_sel e) (t_done c e) (t_reset e) tc (t_done_cancel c e tc Ec)).
+  - unfold t_reset, t_end0. lia.
+  - apply Hl. reflexivity.
+Qed.
+
+(** for every configuration: a positive wait is only sat out if Done did not become ready
+    before the timer *)
+Lemma loop_positive_wait c h sl td treset : forall rem k cur now last,
+  loop_ok c h sl td treset rem k cur now = true ->
+  Forall (fun it => w_ctx it = false -> 0 < w_wait it ->
+                    forall t, td = Some t -> w_tnb it + w_wait it <= t)
+         (r_waits (loop c h sl rem k cur now last)).
+Proof.
+  induction rem as [|rem IH]; intros k cur now last Hok; [constructor|].
+  cbn [loop loop_ok] in *.
+  destruct (next_backoff c cur (s_elapsed (sl k)) (s_rnd (sl k))) as [wait cur'].
+  apply andb_true_iff in Hok as [Hs Hok].
+  apply sel_ok_spec in Hs as [_ [_ [_ [_ [_ [_ [_ Tm]]]]]]].
+  destruct (s_ctx (sl k)) eqn:Ec.
+  - constructor; [cbn; congruence|constructor].
+  - destruct (Tm eq_refl) as [_ T].
+    destruct (is_ok (h k)); [constructor; [cbn; intros _; exact T|constructor]|].
+    cbn [r_waits]. constructor; [cbn; intros _; exact T|]. apply IH. exact Hok.
+Qed.
+
+(** after the context has ended a retry can only happen through a zero (or negative) wait: a
+    select entered with Done ready takes the timer only if the timer is ready too *)
+Lemma retry_after_context_end c h e : env_ok c h e = true ->
+  forall it, In it (r_waits (retry c h e)) -> lost_race (t_done c e) it = true -> w_wait it <= 0.
+Proof.
+  intros Henv it Hin Hl. apply env_ok_spec in Henv as [_ [_ [_ Hok]]].
+  unfold lost_race, ctx_ready_at in Hl. apply andb_true_iff in Hl as [Hc Hr].
+  apply negb_true_iff in Hc. destruct (t_done c e) as [t|] eqn:Etd; [|discriminate]. zb.
+  unfold retry in Hin. destruct (is_ok (h O)) eqn:E0; [destruct Hin|]. cbn [r_waits] in Hin.
+  pose proof (loop_positive_wait c h (e_sel e) (Some t) (t_reset e) (iterations c) 1 (initial c) (t_reset e) (h O) (Hok eq_refl)) as F.
+  rewrite Forall_forall in F. destruct (Z.lt_ge_cases 0 (w_wait it)) as [P|P]; [|exact P].
+  specialize (F it Hin Hc P t eq_refl). lia.
+Qed.
+
+(** the loop stops at the first select that takes ctx.Done *)
+Lemma loop_stops_at_ctx c h sl : forall rem k cur now last j,
+  (k <= j < k + rem)%nat -> s_ctx (sl j) = true ->
+  (length (calls (r_trace (loop c h sl rem k cur now last))) <= j - k)%nat.
+Proof.
+  induction rem as [|rem IH]; intros k cur now last j Hj Hc; [lia|].
+  cbn [loop]. destruct (next_backoff c cur (s_elapsed (sl k)) (s_rnd (sl k))) as [wait cur'].
+  destruct (s_ctx (sl k)) eqn:Ek; [cbn; lia|].
+  assert (j <> k) by (intros ->; congruence).
+  destruct (is_ok (h k)); [cbn; lia|].
+  cbn [r_trace calls flat_map app].
+  match goal with |- context [flat_map ?f (notes c k wait ++ ?l)] =>
+    change (flat_map f (notes c k wait ++ l)) with (calls (notes c k wait ++ l)) end.
+  rewrite calls_notes. cbn [length].
+  specialize (IH (S k) cur' (now + s_gap (sl k) + s_wake (sl k) + s_dur (sl k)) (h k) j ltac:(lia) Hc). lia.
+Qed.
+
+(** with every attempt failing, ALL retries are made if and only if EVERY select takes the timer
+    case.  When the context has ended before the first retry and the back-off is 0 each select has
+    both cases ready and Go chooses uniformly: of the 2^n resolutions exactly one makes all n
+    retries *)
+Lemma retry_all_retries_iff c h e :
+  (forall j, (j <= iterations c)%nat -> is_ok (h j) = false) ->
+  (attempts (r_trace (retry c h e)) = 1 + iterations c)%nat
+  <-> (forall j, (1 <= j <= iterations c)%nat -> s_ctx (e_sel e j) = false).
+Proof.
+  intros Hf. split.
+  - intros Ha j Hj. destruct (s_ctx (e_sel e j)) eqn:Ec; [|reflexivity]. exfalso.
+    unfold attempts, retry in Ha. rewrite (Hf O ltac:(lia)) in Ha. cbn [r_trace calls flat_map app length] in Ha.
+    match type of Ha with context [flat_map ?f ?l] => change (flat_map f l) with (calls l) in Ha end.
+    pose proof (loop_stops_at_ctx c h (e_sel e) (iterations c) 1 (initial c) (t_reset e) (h O) j ltac:(lia) Ec). lia.
+  - intros Hs. destruct (retry_exhaust c h e Hf Hs) as [Hc _].
+    unfold attempts. rewrite Hc, seq_length. lia.
+Qed.
